@@ -38,11 +38,30 @@ def content_ops(tmpdir):
     ops['save_images'] = save_images
     def save(d):
         t = tempfile.mkdtemp(dir=tmpdir); p = os.path.join(t, 'out.docx')
-        d.docx_reader.save(p)
+        try: d.docx_reader.save(p)
+        finally: note_stray(t, {'out.docx'})
         import zipfile
         with zipfile.ZipFile(p) as z: return sorted(z.namelist())
     ops['save'] = save
     return ops
+
+
+STRAY = []
+
+
+def note_stray(folder, allowed):
+    """files left beside the target of a save (temporary files of a failed or finished save)"""
+    for f in os.listdir(folder):
+        if f not in allowed: STRAY.append(os.path.join(os.path.basename(folder), f))
+
+
+def open_fds():
+    """descriptor -> target, for every descriptor of this process (the one used for listing aside)"""
+    out = {}
+    for f in os.listdir('/proc/self/fd'):
+        try: out[f] = os.readlink('/proc/self/fd/' + f)
+        except OSError: pass
+    return out
 
 
 def reader_ops(tmpdir):
@@ -58,7 +77,8 @@ def reader_ops(tmpdir):
     }
     def save(r):
         t = tempfile.mkdtemp(dir=tmpdir); p = os.path.join(t, 'out.docx')
-        r.save(p)
+        try: r.save(p)
+        finally: note_stray(t, {'out.docx'})
         import zipfile
         with zipfile.ZipFile(p) as z: return sorted(z.namelist())
     ops['save'] = save
